@@ -2,6 +2,7 @@
 package c01
 
 import (
+	"strings"
 	"fmt"
 	"testing"
 
@@ -103,7 +104,36 @@ func check(c Case) ev.Verdict {
 		}
 		return v
 	}
-	v.Classes = []string{fmt.Sprintf("ok/nops=%d", len(ops)), negc}
+	nops := len(ops)
+	switch {
+	case nops > 1000:
+		nops = 1001
+	case nops > 24:
+		nops = 25
+	}
+	v.Classes = []string{fmt.Sprintf("ok/nops=%d", nops), negc}
+	// the shape on which a duplicate that shares structure with its source shows
+	deep := false
+	for i, a := range ops {
+		if deep || a.Op != "copy" && a.Op != "move" {
+			continue
+		}
+		for _, b := range ops[i+1:] {
+			if b.Op == "test" {
+				continue
+			}
+			for _, side := range []string{a.Path, a.From} {
+				for _, p := range []string{b.Path, b.From} {
+					if side != "" && strings.HasPrefix(p, side+"/") && strings.Count(p[len(side):], "/") >= 2 {
+						deep = true
+					}
+				}
+			}
+		}
+	}
+	if deep {
+		v.Classes = append(v.Classes, "edit-two-levels-below-a-copied-or-moved-value")
+	}
 	v.NonTrivial = want.Applied >= 2
 	if got.Err != nil {
 		v.Err = fmt.Errorf("reference evaluation succeeds (%s) but Apply failed: %v", want.Doc, got.Err)
